@@ -273,6 +273,23 @@ func runStacks(prop, tier string, wi, wn int, p plan, res *workerResult) {
 		}
 		var fams []fam
 		if prop == "C03" {
+			// deeper stacks of single-record tables: the shape of the merge heap depends on the number of tables
+			single := func(nkeys int) []pattern {
+				var out []pattern
+				for i := 0; i < nkeys; i++ {
+					for v := 1; v <= 2; v++ {
+						q := make(pattern, nkeys)
+						q[i] = v
+						out = append(out, q)
+					}
+				}
+				return out
+			}
+			deep := 5
+			if !quick {
+				deep = 6
+			}
+			fams = append(fams, fam{"refs", single(3), deep}, fam{"logs", single(4), deep - 1})
 			fams = append(fams, fam{"refs", patterns(3, 3), p.stacks})
 			if quick {
 				fams = append(fams, fam{"logs", patterns(4, 3), 2})
